@@ -13,7 +13,9 @@ def run(ctx, rep):
     cg.rule_utf8_flow(rep, crates['logos_codegen'])
     cg.rule_utf8_gate(rep, crates['logos_codegen'])
     rt.rule_rounding(rep, crates['logos'], 'ws-default')
+    rt.rule_is_boundary(rep, crates['logos'], 'ws-default')     # both modes accept exactly the valid positions (incl. the end) in bump
     cg.cg_controls(rep, ctx, [('M-C12a', cg.rule_utf8_flow)])
     rep.trusted += ['rustc nightly MIR', 'engines/mirfacts', 'regex-automata: thompson::Config::utf8 semantics; regex-syntax Properties::is_utf8']
     from props import gen
     gen.rules_c12(ctx, rep)
+    gen.rule_must_reject(ctx, rep, gen.configs(ctx), ['non_utf8_in_str_mode'], floor=8)
